@@ -484,3 +484,22 @@ SLICE_MODELS = {
     r"^<&\[u8\] as Buf>::get_i64$": m_buf_get_int(8, False, True),
     r"^<usize as Ord>::min$": m_usize_min, r"^std::cmp::min::<usize>$": m_usize_min,
 }
+
+
+# ----------------------------------------------------------------------------- integer conversions
+def m_int_from(it, p, callee, args):
+    m = re.match(r"<(\w+) as From<(\w+)>>::from$", callee) or re.match(r"<(\w+) as Into<(\w+)>>::into$", callee)
+    if not m:
+        raise Unsupported("int conversion " + callee)
+    dst = m.group(1) if "From<" in callee else m.group(2)
+    a = args[0]
+    if isinstance(a, Bool):
+        a = Int(it.be.ite(a.t, it.be.const(1, 8), it.be.const(0, 8)), 8, False)
+    w, s = mir.INT_TYPES[dst]
+    return Int(it.be.resize(a.t, a.w, w, a.signed), w, s)
+
+
+INT_MODELS = {
+    r"^<[iu](8|16|32|64|128|size) as From<([iu](8|16|32|64|128|size)|bool)>>::from$": m_int_from,
+    r"^<[iu](8|16|32|64|128|size) as Into<[iu](8|16|32|64|128|size)>>::into$": m_int_from,
+}
